@@ -118,7 +118,7 @@ def asan(ctx):
     if not binp:
         return dict(report={"status": "build failed"}, inconclusive=[err])
     j = os.path.join(ctx["work"], "asan.journal")
-    scale = {"C12": 12, "C14": 20}.get(ctx["pid"], 10)
+    scale = {"C12": 6, "C14": 25}.get(ctx["pid"], 10)
     env2 = _env({"ASAN_OPTIONS": "halt_on_error=1:abort_on_error=0:detect_leaks=0:allocator_may_return_null=1"})
     res = _run_tool(ctx, "asan", [binp, "run", ctx["pid"], "--tier", "quick", "--seed", str(ctx["seed"]), "--journal", j,
                                   "--scale", str(scale), "--as-gib", "0", "--replay-dir", ctx["replays"]],
@@ -136,7 +136,7 @@ def tsan(ctx):
     j = os.path.join(ctx["work"], "tsan.journal")
     env2 = _env({"TSAN_OPTIONS": "halt_on_error=0:report_signal_unsafe=0:second_deadlock_stack=1"})
     res = _run_tool(ctx, "tsan", [binp, "run", ctx["pid"], "--tier", "quick", "--seed", str(ctx["seed"]), "--journal", j,
-                                  "--scale", "35", "--as-gib", "0", "--replay-dir", ctx["replays"]],
+                                  "--scale", "25", "--as-gib", "0", "--replay-dir", ctx["replays"]],
                     env2, j, 3000, r"WARNING: ThreadSanitizer: ([^\n]+)", ok_rc=(0,))
     res["report"]["build_s"] = round(bs, 1)
     return res
@@ -146,7 +146,7 @@ def valgrind(ctx):
     """reduced workload under valgrind memcheck (sees zstd's C code too; uninitialised values, invalid
     accesses)"""
     j = os.path.join(ctx["work"], "valgrind.journal")
-    scale = {"C12": 2, "C14": 17}.get(ctx["pid"], 2)
+    scale = {"C12": 4, "C14": 9}.get(ctx["pid"], 2)
     cmd = ["valgrind", "-q", "--error-exitcode=99", "--leak-check=no", "--undef-value-errors=yes", "--num-callers=12",
            ctx["pfv"], "run", ctx["pid"], "--tier", "quick", "--seed", str(ctx["seed"]), "--journal", j,
            "--scale", str(scale), "--as-gib", "0", "--replay-dir", ctx["replays"]]
